@@ -135,6 +135,9 @@ class Valve(BranchWInternalsComponent):
                 pipe_pit[internal[pipes[~fp], 1], TO_NODE] = valve_nodes[~fp]
 
                 to_nodes[mask_p] = valve_nodes[inverse_index]
+                # the internal nodes start from the temperature their junction has now that all feeders
+                # have written theirs (their node entries were created before)
+                node_pit[to_nodes[mask_p], TINIT_NODE] = node_pit[from_nodes[mask_p], TINIT_NODE]
 
             tbl = cls.table_name()
             valve_pit[:, FROM_NODE] = from_nodes
